@@ -36,6 +36,7 @@ func RegisterAll() {
 	run.Register(&c12{})
 	run.Register(&c13{})
 	run.Register(&c14{})
+	run.Register(&c15{})
 	run.Register(&c20{})
 }
 
